@@ -105,6 +105,11 @@ type handshakeTransport struct {
 	startKex    chan *pendingKex
 	kexLoopDone chan struct{} // closed (with writeError non-nil) when kexLoop exits
 
+	// abandoned is closed when nobody will read incoming any more (Close, a
+	// failed handshake), so that readLoop does not wait for a reader.
+	abandoned   chan struct{}
+	abandonOnce sync.Once
+
 	// data for host key checking
 	hostKeyCallback HostKeyCallback
 	dialAddress     string
@@ -144,6 +149,7 @@ func newHandshakeTransport(conn keyingTransport, config *Config, clientVersion, 
 		requestKex:    make(chan struct{}, 1),
 		startKex:      make(chan *pendingKex),
 		kexLoopDone:   make(chan struct{}),
+		abandoned:     make(chan struct{}),
 
 		config: config,
 	}
@@ -248,7 +254,16 @@ func (t *handshakeTransport) readLoop() {
 		if !(t.sessionID == nil && t.strictMode) && (p[0] == msgIgnore || p[0] == msgDebug) {
 			continue
 		}
-		t.incoming <- p
+		select {
+		case t.incoming <- p:
+			continue
+		case <-t.abandoned:
+		}
+		// Nobody reads incoming any more: stop, so that kexLoop and Close
+		// can finish.
+		t.readError = io.EOF
+		close(t.incoming)
+		break
 	}
 
 	// Stop writers too.
@@ -637,9 +652,16 @@ func (t *handshakeTransport) writePacket(p []byte) error {
 	return nil
 }
 
+// abandon tells readLoop that nobody will call readPacket any more.
+func (t *handshakeTransport) abandon() {
+	t.abandonOnce.Do(func() { close(t.abandoned) })
+}
+
 func (t *handshakeTransport) Close() error {
 	// Close the connection. This should cause the readLoop goroutine to wake up
-	// and close t.startKex, which will shut down kexLoop if running.
+	// and close t.startKex, which will shut down kexLoop if running. readLoop
+	// may also be waiting to hand over a packet that nobody will read.
+	t.abandon()
 	err := t.conn.Close()
 
 	// Wait for the kexLoop goroutine to complete.
